@@ -40,7 +40,13 @@ impl<T: Semiring> WmcParams<T> {
     /// assert_eq!(params.assignment_weight(&all_true).0, 0.7)
     /// ```
     pub fn new(var_to_val: HashMap<VarLabel, (T, T)>) -> WmcParams<T> {
-        let mut var_to_val_vec: Vec<Option<(T, T)>> = vec![None; var_to_val.len()];
+        // the table is indexed by label: size it by the largest label, not by the number of entries
+        let table_len = var_to_val
+            .keys()
+            .map(|key| key.value_usize() + 1)
+            .max()
+            .unwrap_or(0);
+        let mut var_to_val_vec: Vec<Option<(T, T)>> = vec![None; table_len];
         for (key, value) in var_to_val.iter() {
             var_to_val_vec[key.value_usize()] = Some(*value);
         }
